@@ -107,6 +107,9 @@ func runGoRoundTrip(c *Case, tr *Trace) {
 		fail("newunfolder", err)
 		return
 	}
+	if kc, ok := c.Sub["keycache"].(float64); ok {
+		un.EnableKeyCache(int(kc))
+	}
 	if err := un.SetTarget(q.Interface()); err != nil {
 		fail("settarget", err)
 		return
